@@ -653,6 +653,42 @@ namespace
         static void           eval(Scalar<"id", Int> id, In<"d", DInt> d, NodeView self, DateTime now) { log_dict("drec", id.value(), self, now, d); }
     };
 
+    // ---------- set-shaped payloads: the key set of a dictionary as a TSS, recorded in the dictionary format (value 1) ----------
+    using SInt = TSS<Int>;
+    struct VSKeys
+    {
+        static constexpr auto name = "v_skeys";
+        static void           eval(In<"d", DInt> d, Out<SInt> out)
+        {
+            for (const auto &key : d.removed_keys()) { out.remove(key.template checked_as<Int>()); }
+            for (const auto &key : d.added_keys()) { out.add(key.template checked_as<Int>()); }
+        }
+    };
+    struct VSRec
+    {
+        static constexpr auto name = "v_srec";
+        static void           eval(Scalar<"id", Int> id, In<"s", SInt> s, NodeView self, DateTime now)
+        {
+            std::vector<long> val, add, rem;
+            for (const auto &v : s.values()) { val.push_back(static_cast<long>(v)); }
+            for (const auto &v : s.added()) { add.push_back(static_cast<long>(v)); }
+            for (const auto &v : s.removed()) { rem.push_back(static_cast<long>(v)); }
+            std::sort(val.begin(), val.end());
+            std::sort(add.begin(), add.end());
+            std::sort(rem.begin(), rem.end());
+            auto ones = [](const std::vector<long> &v) {
+                std::string r = "[";
+                for (size_t i = 0; i < v.size(); ++i)
+                {
+                    if (i) { r += ","; }
+                    r += "[" + std::to_string(v[i]) + ",1]";
+                }
+                return r + "]";
+            };
+            J("drec").i("id", id.value()).i("g", inst_of(self)).i("t", to_k(now)).raw("val", ones(val)).raw("mod", ones(add)).raw("add", jlist(add)).raw("rem", jlist(rem)).emit();
+        }
+    };
+
     using DErr = TSD<Int, TS<NodeError>>;
     struct VDErrRec
     {
@@ -860,6 +896,7 @@ namespace
         std::map<long, Port<void>>               erased;    // node id -> erased output (try_except results)
         std::map<long, Port<DInt>>               dports;    // node id -> dictionary output port
         std::map<long, Port<L2>>                 lports;    // node id -> two-element list output port
+        std::map<long, Port<TSS<Int>>>           sports;    // node id -> set output port
         std::optional<P>                         key;       // the `key` port of a mapped child graph
         std::map<long, std::shared_ptr<void>>    feedbacks; // node id -> feedback handle
     };
@@ -994,6 +1031,12 @@ namespace
             if (l.pos[0] == "bind")
             {
                 const long fbid = std::stol(l.pos.at(1));
+                if (spec_of(fbid).kind == "sfb")
+                {
+                    auto &fb = *static_cast<decltype(stdlib::feedback<SInt>(w)) *>(env.feedbacks.at(fbid).get());
+                    fb(env.sports.at(std::stol(l.pos.at(2))));
+                    continue;
+                }
                 if (spec_of(fbid).kind == "dfb")
                 {
                     auto &fb = *static_cast<decltype(stdlib::feedback<DInt>(w)) *>(env.feedbacks.at(fbid).get());
@@ -1015,7 +1058,7 @@ namespace
             const std::string kind = l.pos.at(2);
             NodeSpec         &sp   = spec_of(id);
             std::vector<P>    in;
-            if (kind != "drec" && kind != "map" && kind != "reduce" && kind != "rrec" && kind != "mesh" && kind != "elem" && kind != "dite")
+            if (kind != "drec" && kind != "skeys" && kind != "srec" && kind != "map" && kind != "reduce" && kind != "rrec" && kind != "mesh" && kind != "elem" && kind != "dite")
             {
                 for (auto &r : sp.ins) { in.push_back(resolve(env, r)); }
             }
@@ -1135,6 +1178,15 @@ namespace
                 auto      dl = env.dports.at(std::stol(sp.ins.at(1)));
                 auto      m  = dispatch_slot<SubG2>(k, [&]<typename G>() { return Port<void>{wire<stdlib::mesh_>(w, fn<G>(), dv, dl)}; });
                 env.dports.emplace(id, m.as<DInt>());
+            }
+            else if (kind == "skeys") { env.sports.emplace(id, wire<VSKeys>(w, env.dports.at(std::stol(sp.ins.at(0))))); }
+            else if (kind == "srec") { wire<VSRec>(w, sid, env.sports.at(std::stol(sp.ins.at(0)))); }
+            else if (kind == "sfb")
+            {
+                using FB = decltype(stdlib::feedback<SInt>(w));
+                std::shared_ptr<void> h = std::make_shared<FB>(stdlib::feedback<SInt>(w));
+                env.sports.emplace(id, (*static_cast<FB *>(h.get()))());
+                env.feedbacks[id] = h;
             }
             else if (kind == "dfb")
             {
